@@ -291,6 +291,19 @@ def benign_edits(pf, path, rng):
                          ("edit_cellh_line", dict(level=lv, lineno=first_fod + c, newtext=f"FabOnDisk: {files[c]} {target}"))]))
         out.append((f"offset of box {b} level {lv} moved into its own header line",
                     [("edit_cellh_line", dict(level=lv, lineno=first_fod + b, newtext=f"FabOnDisk: {fodl[1]} {int(fodl[2]) + 4}"))]))
+        # the counting lines of the level header (what validation never compares with the binary files directly)
+        nf = len(info["names"])
+        out.append((f"Cell_H of level {lv}: component count line says {nf + 1}",
+                    [("edit_cellh_line", dict(level=lv, lineno=2, newtext=str(nf + 1)))]))
+        if nf > 1:
+            out.append((f"Cell_H of level {lv}: component count line says {nf - 1}",
+                        [("edit_cellh_line", dict(level=lv, lineno=2, newtext=str(nf - 1)))]))
+        out.append((f"Cell_H of level {lv}: box count line says {nb + 1}",
+                    [("edit_cellh_line", dict(level=lv, lineno=4, newtext=f"({nb + 1} 0"))]))
+        out.append((f"Cell_H of level {lv}: second box count line says {nb + 1}",
+                    [("edit_cellh_line", dict(level=lv, lineno=first_fod - 1, newtext=str(nb + 1)))]))
+        out.append((f"Cell_H of level {lv}: version lines changed",
+                    [("edit_cellh_line", dict(level=lv, lineno=0, newtext="2")), ("edit_cellh_line", dict(level=lv, lineno=1, newtext="0"))]))
     return out
 
 
